@@ -54,6 +54,7 @@ class Config:
     cmpi_same: bool = False         # arith.cmpi with identical operands
     select_const: bool = False      # i1 selects between constants / with a constant condition
     cf_extras: bool = False         # cond_br with identical successors, pass-through blocks
+    cf_extras_select: bool = True   # ... followed (half of the time) by an arith.select on the same condition
     observe_all: bool = False       # every value computed at the top level (and most values computed in
                                     # scf bodies) is passed to an external function, so that it is observable
     float_extremes: bool = False    # float constants near the overflow / underflow thresholds
@@ -887,7 +888,7 @@ class ProgGen:
             lines.append(f"  cf.br {bm}({p2} : {t})")
         m = self.fresh("ba")
         lines.append(f"{bm}({m}: {t}):")
-        if self.rng.random() < 0.5:
+        if self.rng.random() < 0.5 and c.cf_extras_select:
             # a use of the condition after the join (truth propagation must not touch it)
             v = self.fresh()
             lines.append(f"  {v} = arith.select {cnd}, {m}, {xa} : {t}")
